@@ -259,6 +259,8 @@ pub struct Monitors {
     pub cp_revoked: BTreeMap<u64, [u8; 32]>,
     /// revocations refused while a store write was failing: possibly recorded by the store side that took the write
     pub cp_revoked_maybe: BTreeSet<u64>,
+    /// holder secrets whose release may be recorded in the store although the reply was refused (write failure)
+    pub revoked_maybe: BTreeSet<u64>,
     /// sign requests refused while a store write was failing (number → point): possibly recorded as signed
     pub cp_signed_maybe: BTreeMap<u64, u64>,
     pub violations: Vec<Violation>,
@@ -613,7 +615,7 @@ impl World {
                 if self.mon.signed.contains(&k) {
                     self.violation("c02-signed-and-revoked", format!("{} disclosed the secret of holder commitment {} whose signature was released earlier", via, k));
                 }
-                if self.mon.sign_seen && !self.mon.revoked.contains(&k) {
+                if self.mon.sign_seen && !self.mon.revoked.contains(&k) && !self.mon.revoked_maybe.contains(&k) {
                     self.violation("c02-new-secret-after-sign", format!("{} disclosed the not yet disclosed secret of commitment {} after a holder signature had been released", via, k));
                 }
                 self.mon.revoked.insert(k);
@@ -1141,7 +1143,16 @@ impl World {
                     match self.node.with_channel(&self.channel_id, |chan| chan.revoke_previous_holder_commitment(n)) {
                         Ok((_, Some(s))) => Ok(format!("ok {}", self.on_secret(s.secret_bytes(), "revoke_previous_holder_commitment"))),
                         Ok((_, None)) => Ok("ok".into()),
-                        Err(e) => Err(class_of(&e)),
+                        Err(e) => {
+                            // refused while a write was failing: the advance (and with it the release of this secret) may already
+                            // be recorded by the store side that took the write
+                            if self.in_fail {
+                                if let Some(k) = n.checked_sub(1) {
+                                    self.mon.revoked_maybe.insert(k);
+                                }
+                            }
+                            Err(class_of(&e))
+                        }
                     }
                 }
                 "activate" => self.node.with_channel(&self.channel_id, |chan| chan.activate_initial_commitment()).map(|_| "ok".to_string()).map_err(|e| class_of(&e)),
@@ -1343,6 +1354,12 @@ impl World {
                                 || (a.next_holder_commit_info.is_some() && b.next_holder_commit_info.is_none()),
                         _ => false,
                     };
+                    if self.in_fail && r.is_err() && ver < 5 {
+                        // old protocol: the same request also revokes n-1
+                        if let Some(k) = n.checked_sub(1) {
+                            self.mon.revoked_maybe.insert(k);
+                        }
+                    }
                     if (validated || self.in_fail) && s {
                         self.mon.accepted_valid.insert(n);
                     } else if validated {
@@ -1367,7 +1384,16 @@ impl World {
                             Message::RevokeCommitmentTxReply(rep) => Ok(format!("ok {}", self.on_secret(rep.old_commitment_secret.0, "RevokeCommitmentTx"))),
                             _ => Ok("ok ?reply".into()),
                         },
-                        Err(e) => Err(herr_class(&e)),
+                        Err(e) => {
+                            // refused while a write was failing: the advance (and with it the release of this secret) may already
+                            // be recorded by the store side that took the write
+                            if self.in_fail {
+                                if let Some(k) = Some(n) {
+                                    self.mon.revoked_maybe.insert(k);
+                                }
+                            }
+                            Err(herr_class(&e))
+                        }
                     }
                 }
                 "hgetpoint" => {
@@ -1609,6 +1635,12 @@ impl World {
                                 || (a.next_holder_commit_info.is_some() && b.next_holder_commit_info.is_none()),
                         _ => false,
                     };
+                    if self.in_fail && r.is_err() && ver < 5 {
+                        // old protocol: the same request also revokes n-1
+                        if let Some(k) = n.checked_sub(1) {
+                            self.mon.revoked_maybe.insert(k);
+                        }
+                    }
                     if (validated || self.in_fail) && full {
                         self.mon.accepted_valid.insert(n);
                     } else if validated {
